@@ -616,7 +616,32 @@ pub fn gen_stmt(u: &mut Unstructured, attrs: &[(u8, MAttr)], flavor: Flavor, wan
             }
         }
     };
-    MStmt { tag: *tag, kind }
+    MStmt { tag: *tag, kind: retag_range(kind, flavor, *tag) }
+}
+
+/// Range statements are about embedded values: a numeric attribute and a timestamp with the same
+/// number are the same field element, so bounds of the other numeric variant state the same thing.
+/// 3 of 8 numeric range statements get a bound (or both) of the other variant; the selector is derived
+/// from the bounds, no further choice bytes are consumed.
+pub fn retag_range(kind: MKind, flavor: Flavor, tag: u8) -> MKind {
+    fn flip(a: &MAttr) -> MAttr {
+        match a {
+            MAttr::Num(n) => MAttr::Ts(*n),
+            MAttr::Ts(n) => MAttr::Num(*n),
+            other => other.clone(),
+        }
+    }
+    match (&kind, flavor) {
+        (MKind::Range { lo: lo @ (MAttr::Num(a) | MAttr::Ts(a)), hi: hi @ (MAttr::Num(b) | MAttr::Ts(b)) }, Flavor::Web3) => {
+            match (a ^ b ^ (a >> 7) ^ tag as u64) % 8 {
+                0 => MKind::Range { lo: flip(lo), hi: hi.clone() },
+                1 => MKind::Range { lo: lo.clone(), hi: flip(hi) },
+                2 => MKind::Range { lo: flip(lo), hi: flip(hi) },
+                _ => kind,
+            }
+        }
+        _ => kind,
+    }
 }
 
 pub fn to_set<A: AttrT>(s: &[MAttr]) -> BTreeSet<A> { s.iter().map(A::from_model).collect() }
